@@ -2186,6 +2186,15 @@ ws_conn_cb(void *arg)
 	if (uaio == NULL) {
 		// This request was canceled for some reason.
 		nni_mtx_unlock(&ws->mtx);
+		nni_mtx_lock(&d->mtx);
+		if (nni_list_node_active(&ws->node)) {
+			nni_list_remove(&d->wspend, ws);
+			ws->dialer = NULL;
+			if (nni_list_empty(&d->wspend)) {
+				nni_cv_wake(&d->cv);
+			}
+		}
+		nni_mtx_unlock(&d->mtx);
 		ws_reap(ws);
 		return;
 	}
